@@ -1,3 +1,4 @@
+\* the current code: deepClone follows interfaces, exact size rendering, redaction on a clone
 SPECIFICATION Spec
 CONSTANTS
   IfaceDeep = TRUE
